@@ -17,11 +17,12 @@ def build_impl(run):
     return exe
 
 
-def alphabet(uid_a=1000):
-    """~15 filter specs: known passing / dropping (depending on the state), unknown, empty, with / without arguments"""
+def alphabet(uid_a=1000, anc=DRIVER_COMM):
+    """~15 filter specs: known passing / dropping (depending on the state), unknown, empty, with / without arguments;
+    anc = kernel process name of an ancestor common to the implementation driver's workers and the scripted caller"""
     u = b"%d" % uid_a
     return [b"only_root", b"only_uid:" + u, b"exclude_uid:" + u, b"only_uid:0," + u, b"only_tty", b"noop",
-            b"exclude_spawns_of:" + DRIVER_COMM, b"exclude_spawns_of:nosuchproc", b"nosuchfilter", b"nosuchfilter:arg",
+            b"exclude_spawns_of:" + anc, b"exclude_spawns_of:nosuchproc", b"nosuchfilter", b"nosuchfilter:arg",
             b"", b"only_root:ignored", b":arg", b"exclude_uid:", b"only_uid"]
 
 
